@@ -29,7 +29,7 @@ E_MOD, NU, SIGMA_Y = 210e3, 0.3, 250.0
 EPS_Y = SIGMA_Y / E_MOD
 LAM = E_MOD * NU / ((1 + NU) * (1 - 2 * NU))
 MU = E_MOD / (2 * (1 + NU))
-DT = 1.0  # time increment of every step of a rate-dependent / viscoelastic behaviour
+DT = 0.5  # time increment of every step of a rate-dependent / viscoelastic behaviour (not 1: dt must not drop out)
 
 YIELDS = {
     "VonMises": ("VonMises", {}),
@@ -855,7 +855,8 @@ def run_simulation(case):
         for k, (zs, us) in enumerate(saved):
             res = simu.Get_results(k)
             st = {str(et): np.array(a) for et, a in res.get("state", {}).items()}
-            if set(st) != set(zs) or any(st[et].tobytes() != zs[et].tobytes() for et in zs):
+            ets = set(st) | set(zs)  # a group without an entry is virgin (zeros)
+            if any(st.get(et, zeros_like_group(et)).tobytes() != zs.get(et, zeros_like_group(et)).tobytes() for et in ets):
                 add("saved_state_changed", i, f"the state stored for iteration {k} is not the state committed by that Save_Iter")
             if np.array(res["displacement"]).tobytes() != us.tobytes():
                 add("saved_displacement_changed", i, f"the displacement stored for iteration {k} changed")
@@ -891,7 +892,7 @@ def cases(tier, seed):
         # depth 3 for every behaviour within one deviation of the default, depth 2 within two deviations
         for c in _material_cfgs(2):
             out.append({"kind": "mat", **c, "depth": 3 if _ndev(c) <= 1 else 2})
-        sims = {"J2lin-PE-QUAD4": 3, "J2voceAF-PS-mixed": 2, "J2lin-Norton-PE-TRI3": 2, "Maxwell2-PE-QUAD4": 2, "J2lin-3D-HEXA8": 2}
+        sims = {"J2lin-PE-QUAD4": 4, "J2voceAF-PS-mixed": 3, "J2lin-Norton-PE-TRI3": 2, "Maxwell2-PE-QUAD4": 2, "J2lin-3D-HEXA8": 3}
     else:
         for c in _material_cfgs(None):
             nd = _ndev(c)
@@ -900,7 +901,8 @@ def cases(tier, seed):
                     out.append({"kind": "mat", **c, "depth": 4, "first": i})
             else:
                 out.append({"kind": "mat", **c, "depth": 3 if nd <= 2 else (2 if nd == 3 else 1)})
-        sims = {k: 3 for k in SIM_CFGS}
+        sims = {k: 4 for k in SIM_CFGS}
+        sims["J2lin-PE-QUAD4"] = sims["J2voceAF-PS-mixed"] = 5
     out.sort(key=lambda c: -c["depth"])  # the expensive cases first (load balance)
     for name, depth in sims.items():
         for seq in sim_sequences(depth):
